@@ -103,11 +103,24 @@ def read_calls(path):
             if rest.startswith("+++") or rest.startswith("---"):
                 continue
             if rest.endswith("<unfinished ...>"):
-                pending[pid] = rest[:-len("<unfinished ...>")].rstrip()
+                head = rest[:-len("<unfinished ...>")].rstrip()
+                mc = re.match(r"^close\((\d+)$", head)
+                if mc:
+                    # A descriptor is released somewhere between entry and exit of
+                    # close; another thread may get the same number back before
+                    # the exit is logged.  The entry is always logged first, so
+                    # the table is updated there.
+                    yield ln, pid, "close", [mc.group(1)], 0, None
+                    pending[pid] = None
+                else:
+                    pending[pid] = head
                 continue
             r = re.match(r"^<\.\.\. ([a-z0-9_]+) resumed>\s*(.*)$", rest, re.S)
             if r:
-                rest = pending.pop(pid, r.group(1) + "(") + r.group(2)
+                head = pending.pop(pid, r.group(1) + "(")
+                if head is None:
+                    continue
+                rest = head + r.group(2)
             c = CALL.match(rest)
             if not c:
                 continue
@@ -390,9 +403,29 @@ def build_case(seg, rec, root):
         v = initial[p]
         d = list(bytes.fromhex(v.get("hex", ""))) if bm else ([v["len"]] if v["len"] else [])
         ents.append("(%d, %s)" % (P(p), gdata(d)))
-    terms = []
-    for op in ops:
+    segs_out, terms = [], []
+
+    def flush():
+        if terms:
+            segs_out.append(glist(terms))
+            terms.clear()
+
+    k = 0
+    while k < len(ops):
+        op = ops[k]
         t = op[0]
+        if t == "W" and not bm:
+            j = k
+            while j < len(ops) and ops[j][0] == "W" and ops[j][1] == op[1] and j - k < 2000:
+                j += 1
+            if j - k >= 4:
+                flush()
+                first = seq[0] + 1
+                seq[0] += j - k
+                segs_out.append("WS %d %d %s" % (op[1], first, gdata([o[2] for o in ops[k:j]])))
+                k = j
+                continue
+        k += 1
         if t == "O":
             terms.append("O %d %d %s" % (op[1], P(op[2]), " ".join(gb(x) for x in op[3:8])))
         elif t == "W":
@@ -412,6 +445,8 @@ def build_case(seg, rec, root):
             terms.append("FT %d %d" % (op[1], op[2]))
         elif t == "TP":
             terms.append("TP %d %d" % (P(op[1]), op[2]))
+    flush()
+    trace_term = segs_out[0] if len(segs_out) == 1 else "(concat %s)" % glist(segs_out or ["[]"])
     # versions the harness saw: before the first save, after every SUCCESSFUL save
     # that replaced the file (a failed or skipped save publishes nothing)
     pub = [versions[0]] + [v for v in versions[1:] if not v.get("err") and not v.get("skipped")]
@@ -421,7 +456,7 @@ def build_case(seg, rec, root):
         vers = [gopt(gdata(list(bytes.fromhex(v.get("hex", ""))))) if v["exists"] else "None" for v in pub]
     keep = [str(P(p)) for p in rec.get("keep") or []]
     coq = "(CTrace 1 %s %s %s %s %s %s)%%N" % (
-        glist(keep), glist(ents), glist(terms), gb(bm), glist(lens), glist(vers))
+        glist(keep), glist(ents), trace_term, gb(bm), glist(lens), glist(vers))
     return coq, bm, pid
 
 
